@@ -107,10 +107,17 @@ pub enum DstKind {
     Network = 11,
     EfiMmap = 12,
     InfoReq = 13,
+    /// parsed from raw bytes (`ref_from_slice`) and cloned — the only public
+    /// way to get heap objects with these two header types and with header
+    /// field values the constructors never produce
+    ParsedMbi = 14,
+    ParsedHdr = 15,
+    ParsedTag = 16,
+    ParsedHeaderTag = 17,
 }
 
 impl DstKind {
-    pub const ALL: [DstKind; 14] = [
+    pub const ALL: [DstKind; 18] = [
         DstKind::GenericTag,
         DstKind::GenericHeaderTag,
         DstKind::DummyDst,
@@ -125,7 +132,13 @@ impl DstKind {
         DstKind::Network,
         DstKind::EfiMmap,
         DstKind::InfoReq,
+        DstKind::ParsedMbi,
+        DstKind::ParsedHdr,
+        DstKind::ParsedTag,
+        DstKind::ParsedHeaderTag,
     ];
+    /// kinds that `new_boxed` can be asked for directly
+    pub const BOXABLE: usize = 14;
     pub fn from_u64(v: u64) -> Option<Self> {
         Self::ALL.get(v as usize).copied()
     }
@@ -145,6 +158,10 @@ impl DstKind {
             DstKind::Network => "Network",
             DstKind::EfiMmap => "EfiMmap",
             DstKind::InfoReq => "InfoReq",
+            DstKind::ParsedMbi => "ParsedMbi",
+            DstKind::ParsedHdr => "ParsedHdr",
+            DstKind::ParsedTag => "ParsedTag",
+            DstKind::ParsedHeaderTag => "ParsedHeaderTag",
         }
     }
     /// (minimum content length, divisor of the remainder): the shape each
@@ -226,6 +243,7 @@ fn make_dst(kind: DstKind, typ: u64, aux: u64, garbage: u64, slices: &[&[u8]]) -
             mh::HeaderTagHeader::new(hdr_type(typ), hdr_flag(aux), garbage as u32),
             slices,
         ),
+        _ => unreachable!("parsed kinds are not made by new_boxed"),
     }
 }
 
@@ -463,16 +481,23 @@ impl Interp {
                 None
             }
             Ok(img) => {
-                if img.len() >= 8 {
-                    let declared = u32::from_le_bytes(img[4..8].try_into().unwrap()) as usize;
+                // where this kind's header keeps its size (tag headers: +4;
+                // boot information header: +0; Multiboot2 header: +8)
+                let so = match kind {
+                    DstKind::ParsedMbi => 0,
+                    DstKind::ParsedHdr => 8,
+                    _ => 4,
+                };
+                if img.len() >= so + 4 {
+                    let declared = u32::from_le_bytes(img[so..so + 4].try_into().unwrap()) as usize;
                     if declared != total {
                         let clause = if what.starts_with("clone") { "clone-size" } else { "size-field" };
                         self.viol(clause, k, format!("{what}: size field {declared}, expected {total}"));
                     }
                 }
                 let n = total.min(img.len());
-                // the size field (bytes 4..8) is judged by its own clause
-                let differs = |i: usize| !(4..8).contains(&i) && img[i] != model[i];
+                // the size field is judged by its own clause
+                let differs = |i: usize| !(so..so + 4).contains(&i) && img[i] != model[i];
                 if img.len() < total || (0..n).any(differs) {
                     let clause = if what.starts_with("clone") { "clone-bytes" } else { "content" };
                     let at = (0..n).find(|&i| differs(i)).unwrap_or(n);
@@ -487,11 +512,95 @@ impl Interp {
         }
     }
 
+    /// Raw bytes → `ref_from_slice` → `clone_dyn`: the clone must equal the
+    /// parsed source byte for byte up to its size.
+    fn op_clone_parsed(&mut self, op: &Op) {
+        let content = op.bytes(0);
+        if content.len() > 1 << 18 {
+            return self.skip();
+        }
+        let (f0, f1) = (op.arg(2), op.arg(3));
+        let hk = op.arg(1) % 4;
+        let (kind, hdr): (DstKind, Vec<u8>) = match hk {
+            0 => {
+                let mut h = ((8 + content.len()) as u32).to_le_bytes().to_vec();
+                h.extend_from_slice(&(f0 as u32).to_le_bytes());
+                (DstKind::ParsedMbi, h)
+            }
+            1 => {
+                // only genuine Multiboot2 headers: with any other magic the
+                // crate's checksum arithmetic is outside its domain (a C10
+                // matter, not a heap-construction one)
+                let magic = 0xE852_50D6u32;
+                let arch: u32 = if f1 % 2 == 0 { 0 } else { 4 };
+                let len = (16 + content.len()) as u32;
+                let ck = 0u32.wrapping_sub(magic).wrapping_sub(arch).wrapping_sub(len);
+                let mut h = Vec::new();
+                for w in [magic, arch, len, ck] {
+                    h.extend_from_slice(&w.to_le_bytes());
+                }
+                (DstKind::ParsedHdr, h)
+            }
+            2 => {
+                let mut h = (f0 as u32).to_le_bytes().to_vec();
+                h.extend_from_slice(&((8 + content.len()) as u32).to_le_bytes());
+                (DstKind::ParsedTag, h)
+            }
+            _ => {
+                let mut h = ((f0 % 11) as u16).to_le_bytes().to_vec();
+                h.extend_from_slice(&((f1 % 2) as u16).to_le_bytes());
+                h.extend_from_slice(&((8 + content.len()) as u32).to_le_bytes());
+                (DstKind::ParsedHeaderTag, h)
+            }
+        };
+        let mut model = hdr;
+        model.extend_from_slice(content);
+        // 8-aligned source buffer; its padding is deliberately not zero
+        let words = (model.len() + 7) / 8;
+        let mut store = vec![0xEEEE_EEEE_EEEE_EEEEu64; words];
+        let raw: &mut [u8] = unsafe { std::slice::from_raw_parts_mut(store.as_mut_ptr().cast::<u8>(), words * 8) };
+        raw[..model.len()].copy_from_slice(&model);
+        let raw: &[u8] = raw;
+        fn go<H: multiboot2_common::Header + 'static>(raw: &[u8]) -> Option<Box<dyn DstObj>> {
+            let src = mb::DynSizedStructure::<H>::ref_from_slice(raw).ok()?;
+            let c: Box<mb::DynSizedStructure<H>> = {
+                let _s = Scope::enter();
+                multiboot2_common::clone_dyn(src)
+            };
+            Some(Box::new(c))
+        }
+        let r = self.call(|| match hk {
+            0 => go::<mb::BootInformationHeader>(raw),
+            1 => go::<mh::Multiboot2BasicHeader>(raw),
+            2 => go::<mb::TagHeader>(raw),
+            _ => go::<mh::HeaderTagHeader>(raw),
+        });
+        self.probes.hit(&format!("clone_parsed/{}/residue{}", kind.name(), model.len() % 8));
+        match r {
+            Call::Ok(Some(c)) => {
+                let img = self.check_dst_object(kind, &*c, &model, "clone_dyn(parsed)");
+                let n = model.len();
+                self.note(&[60, kind as u64], img.as_deref().map(|i| &i[..n.min(i.len())]).unwrap_or(&[]));
+                self.put(op.arg(0), Obj::Dst { kind, obj: c, model, snapshot: img });
+            }
+            Call::Ok(None) => {
+                self.probes.hit("clone_parsed_rejected_by_ref_from_slice");
+                self.note(&[61, kind as u64], &[]);
+            }
+            Call::OomPanic(_) => self.note(&[62, kind as u64], &[]),
+            Call::Panic(msg) => {
+                self.viol("clone-panic", kind.name(), format!("ref_from_slice/clone_dyn panicked on a well-formed structure: {msg}"));
+                self.excused_ops.push(self.cur as u32 + 1);
+                self.note(&[63, kind as u64], &[]);
+            }
+        }
+    }
+
     fn op_new_boxed(&mut self, op: &Op) {
-        let Some(kind) = DstKind::from_u64(op.arg(1)) else { return self.skip() };
+        let Some(kind) = DstKind::from_u64(op.arg(1)).filter(|k| (*k as usize) < DstKind::BOXABLE) else { return self.skip() };
         let (typ, aux, garbage) = (op.arg(2), op.arg(3), op.arg(4));
         let total_content: usize = op.b.iter().map(|s| s.len()).sum();
-        if total_content > 1 << 16 {
+        if total_content > 1 << 18 {
             return self.skip();
         }
         if kind == DstKind::Framebuffer {
@@ -611,8 +720,10 @@ impl Interp {
             Obj::Hdr { b, .. } => drop(b),
             Obj::BuiltMbi { s, snapshot } => {
                 if recheck {
-                    if image_of(&*s).ok().as_deref() != Some(&snapshot[..]) {
-                        self.viol("changed-later", "built", "the built structure's bytes changed after build()".into());
+                    if let Ok(i) = image_of(&*s) {
+                        if !snapshot.is_empty() && defined_content(&i, 8) != snapshot {
+                            self.viol("changed-later", "built", "the built structure's bytes changed after build()".into());
+                        }
                     }
                 }
                 let addr = addr_of(&*s);
@@ -623,8 +734,10 @@ impl Interp {
             }
             Obj::BuiltHdr { s, snapshot } => {
                 if recheck {
-                    if image_of(&*s).ok().as_deref() != Some(&snapshot[..]) {
-                        self.viol("changed-later", "built", "the built header's bytes changed after build()".into());
+                    if let Ok(i) = image_of(&*s) {
+                        if !snapshot.is_empty() && defined_content(&i, 16) != snapshot {
+                            self.viol("changed-later", "built", "the built header's bytes changed after build()".into());
+                        }
                     }
                 }
                 let addr = addr_of(&*s);
@@ -661,6 +774,9 @@ impl Interp {
             return Err(());
         }
         let broken = ctor::violates_precondition(c, op);
+        if let Some(p) = simalloc::stack_pattern() {
+            ctor::dirty_stack(p);
+        }
         let r = self.call(|| {
             let _s = Scope::enter();
             ctor::build(c, op)
@@ -906,7 +1022,8 @@ impl Interp {
         }
         self.probes.hit(&format!("mbi_build/slots{}", model.slots.len()));
         self.probes.hit("mbi_build");
-        self.put(op.arg(0), Obj::BuiltMbi { s, snapshot: img });
+        let snapshot = defined_content(&img, 8);
+        self.put(op.arg(0), Obj::BuiltMbi { s, snapshot });
     }
 
     /// Multiset + per-kind order comparison between the model and a walk.
@@ -1068,7 +1185,7 @@ impl Interp {
         let w = |i: usize| u32::from_le_bytes(img[i..i + 4].try_into().unwrap());
         if img.len() < 16 {
             self.viol("length", "header", format!("built header has only {} bytes", img.len()));
-            self.put(op.arg(0), Obj::BuiltHdr { s, snapshot: img });
+            self.put(op.arg(0), Obj::BuiltHdr { s, snapshot: vec![] });
             return self.note(&[54], &[]);
         }
         if w(0) != 0xE852_50D6 {
@@ -1141,7 +1258,8 @@ impl Interp {
         }
         self.probes.hit(&format!("hdr_build/slots{}", model.slots.len()));
         self.probes.hit("hdr_build");
-        self.put(op.arg(0), Obj::BuiltHdr { s, snapshot: img });
+        let snapshot = defined_content(&img, 16);
+        self.put(op.arg(0), Obj::BuiltHdr { s, snapshot });
     }
 
     // -- driver ----------------------------------------------------------------
@@ -1151,6 +1269,7 @@ impl Interp {
         match op.kind {
             OpKind::NewBoxed => self.op_new_boxed(op),
             OpKind::CloneDyn => self.op_clone_dyn(op),
+            OpKind::CloneParsed => self.op_clone_parsed(op),
             OpKind::DropObj => self.op_drop(op),
             OpKind::Construct => self.op_construct(op),
             OpKind::MbiNew => self.op_mbi_new(op),
@@ -1171,6 +1290,23 @@ impl Interp {
             self.viol(f.clause(), "allocator", f.describe());
         }
     }
+}
+
+/// The bytes of a built structure that the specification defines: the fixed
+/// header and every tag up to its size — inter-tag padding excluded (it is
+/// allocator garbage by design, and uninitialised under Miri).
+fn defined_content(img: &[u8], start: usize) -> Vec<u8> {
+    let mut v = Vec::new();
+    if img.len() < start {
+        return v;
+    }
+    v.extend_from_slice(&img[..start]);
+    if let Ok(tags) = raw_walk(img, start) {
+        for t in tags {
+            v.extend_from_slice(&t);
+        }
+    }
+    v
 }
 
 /// Specification walk: tags start after `start` bytes, each (…, u32 size at
